@@ -115,6 +115,7 @@ class Policy(object):
         self.rerun_steps = 4
         self.rerun_ghost = False
         self.rerun_ok = False  # re-executed actions succeed
+        self.rerun_order = True  # symbolic report order after the rerun as well
         self.crash = False  # False | "bits" (every subset of the first crash_max boundaries) | "one" | "two"
         self.crash_max = 6
         self.crash_init = False  # also allow a persist/restore before the very first call
@@ -385,6 +386,7 @@ class Env(object):
         self.log.append("RERUN:" + (",".join(names) if names else "default"))
         before = self.snapshot()
         self.rerun_before_status = self.status()
+        self.rerun_mark = len(self.started)
         self.rerun_seq_len = len(self.c.workflow_state.sequence)
         self.calls.append(["request_workflow_rerun", names])
         try:
@@ -400,6 +402,8 @@ class Env(object):
         for m in self.monitors:
             m.after_call(self, "request_workflow_rerun")
         if self.rerun_rejected is not None:
+            return False
+        if self.status() in COMPLETED:
             return False
         self.cancel_req = False
         self.pause_req = False
@@ -424,7 +428,8 @@ class Env(object):
     # ---- choices ---------------------------------------------------------------------
     def choose_outcome(self, act):
         p = self.policy
-        key = ("o:%s" % act.task) if p.by_task else ("o%d" % self.step)
+        key = ("o:%s" % act.task if act.item is None else "o:%s[%d]" % (act.task, act.item)) if p.by_task else ("o%d" % self.step)
+        act.okey = key
         if self.rerun_done and p.rerun_ok:
             status = S.SUCCEEDED
         elif len(p.statuses) == 2:
@@ -517,7 +522,9 @@ class Env(object):
                 break
             if self.step >= p.steps + (p.rerun_steps if self.rerun_done else 0):
                 break  # bound reached with actions still in flight: truncated history
-            idx = self.ch.pick("r%d" % self.step, min(len(self.inflight), p.max_inflight)) if p.order else 0
+            ordered = p.order and (p.rerun_order or not self.rerun_done)
+            idx = self.ch.pick("r%d" % self.step, min(len(self.inflight), p.max_inflight)) if ordered else 0
+            idx = min(idx, len(self.inflight) - 1)
             act = self.inflight[idx]
             status, result = self.choose_outcome(act)
             self.report(idx, status, result)
